@@ -95,6 +95,9 @@ def generate(seed: int, tier: str) -> Dict[str, Any]:
         raw["perf"]["parallel"] = {"enabled": True, "t1": r.chance(0.5), "t2": True, "agents": False, "max_workers": r.choice([2, 3, 4])}
     # (an id-keyed vector store cannot hold one id twice: worlds with a re-used id are not served by the reader)
     reader = r.chance(0.15) and not dup_owner
+    if r.chance(0.3 if reader else 0.05) and world["episodes"]:
+        # a stored vector with a NaN component: its similarity to anything is not a number and meets no threshold
+        r.choice(world["episodes"])["vec"] = "nan"
     if reader:
         # retrieval served by the embedding-store reader (shards on disk next to the index): the same contract applies
         raw["perf"] = dict(raw.get("perf") or {}, enabled=True)
@@ -237,9 +240,9 @@ def execute(p: Dict[str, Any]) -> Dict[str, Any]:
                                 bad("hit-without-vector", "%s; %s" % (x.id, ctxs))
                             continue
                         c = _cos(qv, e["vec_full"])
-                        if c < thr - 1e-6:
+                        if not (c >= thr - 1e-6):   # NaN meets no threshold
                             bad("below-threshold", "hit %s cosine %.6f < threshold %s; %s" % (x.id, c, thr, ctxs))
-                        if abs(c - float(x.score)) > 1e-5:
+                        if not (abs(c - float(x.score)) <= 1e-5):
                             bad("score-not-cosine", "hit %s score %.6f, cosine %.6f; %s" % (x.id, float(x.score), c, ctxs))
                     tiers = list(cfg_t2.get("tiers", ["exact_semantic", "cluster_semantic", "archive"]))
                     if list((res.metrics or {}).get("tier_sequence") or []) == ["embed_store"]:
